@@ -111,3 +111,5 @@ _check_ab = check
 def check(run):
     _check_ab(run)
     name_tables(run)
+    from vlib import datalemma
+    datalemma.attach(run, 'C01', want=('scalar',), dl1=True)
